@@ -10,7 +10,8 @@
                  under the old key), everything submitted has been sent once a
                  new session is up (not dropped), and an initiation appears
                  when a counter has passed RekeyAfterMessages or packets stay
-                 behind (subject to the 5 s spacing).
+                 behind (subject to the 5 s spacing) -- whichever side
+                 initiated the session the counter belongs to.
 
    [conc_check]  stress trace: per key the multiset of counters seen on the
                  wire: pairwise distinct and below the limit. *)
@@ -42,13 +43,19 @@ Record sp := {
   sp_keys : list (N * N);       (* receiver index -> step at which the session was established *)
   sp_sub : list (N * N);        (* packet id -> step at which it was handed to the TUN *)
   sp_tx : list (N * N * N);     (* everything sent so far, latest first *)
-  sp_allowed : bool             (* an initiation may be sent (5 s spacing) *)
+  sp_allowed : bool;            (* an initiation may be sent (5 s spacing) *)
+  sp_next : option N            (* index of a session the remote party initiated, not yet confirmed by its data *)
 }.
 
-Definition sp0 : sp := {| sp_keys := []; sp_sub := []; sp_tx := []; sp_allowed := true |}.
+Definition sp0 : sp := {| sp_keys := []; sp_sub := []; sp_tx := []; sp_allowed := true; sp_next := None |}.
 
-Definition is_flush (e : ev) : bool :=
-  match e with TunBatch (_ :: _) | Answer _ | Uapi _ => true | _ => false end.
+(* steps in which the device runs SendStagedPackets for the peer *)
+Definition is_flush (nx : option N) (e : ev) : bool :=
+  match e with
+  | TunBatch (_ :: _) | Answer _ | Uapi _ => true
+  | RefData => match nx with Some _ => true | None => false end
+  | _ => false
+  end.
 
 (* last counter sent under idx among tx (latest first) *)
 Fixpoint last_ctr (idx : N) (l : list (N * N * N)) : option N :=
@@ -82,25 +89,39 @@ Definition all_sent (subs : list (N * N)) (sent : list (N * N * N)) : bool :=
   forallb (fun p => existsb (fun u => tx_pl u =? fst p) sent) subs.
 
 Definition sp_step (i : N) (s : sp) (e : ev) (o : out) : sp * bool :=
-  let keys := match e with Answer idx => (idx, i) :: sp_keys s | _ => sp_keys s end in
+  (* a session becomes usable for sending when we complete it as initiator (Answer) or, as responder,
+     when the remote party's first data message confirms it (RefData) -- for BOTH roles *)
+  let fresh := match e with
+               | Answer idx => Some idx
+               | RefData => sp_next s
+               | _ => None
+               end in
+  let keys := match fresh with Some idx => (idx, i) :: sp_keys s | None => sp_keys s end in
   let subs := match e with TunBatch l => map (fun p => (p, i)) l ++ sp_sub s | _ => sp_sub s end in
   let ok_tx := txs_ok i keys subs (sp_tx s) (o_tx o) in
   let sent := rev (o_tx o) ++ sp_tx s in
   let ok_complete :=
-    match e with
-    | Answer idx => if existsb (fun t => tx_idx t =? idx) (o_tx o) then all_sent subs sent else true
-    | _ => true
+    match fresh with
+    | Some idx => if existsb (fun t => tx_idx t =? idx) (o_tx o) then all_sent subs sent else true
+    | None => true
     end in
   let passed := existsb (fun t => Rekey <? tx_ctr t) (o_tx o) in
   let behind := negb (all_sent subs sent) in
   let ok_rekey :=
-    if sp_allowed s && is_flush e && (passed || behind) then 1 <=? o_init o else true in
+    if sp_allowed s && is_flush (sp_next s) e && (passed || behind) then 1 <=? o_init o else true in
   let allowed :=
     match e with
     | AllowInit => true
+    | RefInit _ => false                  (* our response counts for the 5 s spacing *)
     | _ => if 1 <=? o_init o then false else sp_allowed s
     end in
-  ({| sp_keys := keys; sp_sub := subs; sp_tx := sent; sp_allowed := allowed |},
+  let next' :=
+    match e with
+    | RefInit idx => Some idx
+    | Answer _ | RefData => None
+    | _ => sp_next s
+    end in
+  ({| sp_keys := keys; sp_sub := subs; sp_tx := sent; sp_allowed := allowed; sp_next := next' |},
    ok_tx && ok_complete && ok_rekey).
 
 (* first step at which the specification fails *)
